@@ -4,7 +4,7 @@
 # then run the given checks (default: the property's own) against it with tools/mutant.sh.
 PROP=$1; N=$2; shift 2
 CHECKS=${*:-$PROP}
-SRC=/tmp/seed/$PROP.out/$N
+SRC=${SEED_DIR:-/tmp/seed}/$PROP.out/$N
 D=/tmp/seedchk-$$
 mkdir -p $D
 git -C /repo worktree add -q --detach $D/repo HEAD || exit 2
